@@ -666,6 +666,34 @@ func genTsBatch(g *gen) {
 		}
 		g.tsbEmitBool("retention_skips_cleanup", "testscript.RunT: with TestWork / -testwork (WorkdirRoot sets TestWork) the deferred function returns before removeAll and the ref-count", okRet)
 		g.tsbEmitBool("last_script_removes_root_and_cancels", "testscript.RunT: the subtest that brings refCount to 0 removes the root and cancels the context", okRef)
+		// the count starts at the number of scripts, before any subtest is started (a T may run the
+		// subtests inside Run: a count that grows as they are started would reach 0 after the first)
+		okInit := false
+		ast.Inspect(runT.Body, func(n ast.Node) bool {
+			as, ok := n.(*ast.AssignStmt)
+			if !ok || len(as.Lhs) != 1 || len(as.Rhs) != 1 {
+				return true
+			}
+			if id, ok := as.Lhs[0].(*ast.Ident); !ok || id.Name != "refCount" {
+				return true
+			}
+			conv, ok := as.Rhs[0].(*ast.CallExpr)
+			if !ok || len(conv.Args) != 1 {
+				return true
+			}
+			if l, ok := conv.Args[0].(*ast.CallExpr); ok && len(l.Args) == 1 {
+				if f, ok := l.Fun.(*ast.Ident); ok && f.Name == "len" {
+					if a, ok := l.Args[0].(*ast.Ident); ok && a.Name == "files" {
+						okInit = true
+					}
+				}
+			}
+			return true
+		})
+		if !okInit {
+			g.fail("RunT: `refCount := int32(len(files))` not found (the reference count must start at the number of scripts)")
+		}
+		g.tsbEmitBool("refcount_starts_at_len", "testscript.RunT: refCount starts at len(files)", okInit)
 		// no script at all: does RunT itself remove the root? (a statement of RunT's own body, not of a subtest)
 		emptyCleans := false
 		for _, st := range runT.Body.List {
